@@ -340,8 +340,12 @@ def model(A, fn, frame, b, t, st, name):
         if matches(n, "slice::get", "slice::get_mut", "Vec::get", "Vec::get_mut") or n in ("core::slice::get", "core::slice::get_mut"):
             s = seq_of(A, st, A.arg(st, frame, t, 0))
             i = A.deref(st, A.arg(st, frame, t, 1))
-            if s is not None and i[0] == "int" and st.store.entails(i[1].sub(s[1]).addc(1)):
-                return ret(("opt", "Some", None, "Option"))
+            if s is not None and i[0] == "int":
+                # element access with an integer index: Some exactly when index < len; a byte slice yields a byte
+                pay = A.fresh_int(st, "u8", "elem") if ("&u8" in dest_ty or "& u8" in dest_ty or "&mut u8" in dest_ty) else None
+                if st.store.entails(i[1].sub(s[1]).addc(1)):
+                    return ret(("opt", "Some", pay, "Option"))
+                return ret(("opt", None, pay, "Option", (i[1].sub(s[1]).addc(1),)))
         if matches(n, "Vec::pop"):
             k = A.recv_key(st, frame, t, 0)
             if k is not None:
